@@ -4,7 +4,7 @@ and the model's predictions are compared with real builds of all 64 feature subs
 import os, sys, json, time, shutil, subprocess, itertools, hashlib
 from concurrent.futures import ThreadPoolExecutor
 from .. import proofs
-from ..runner import VERIF, WORK
+from ..runner import VERIF, WORK, REPO
 from ..engine import write_replay
 
 ID = 'C20'
@@ -19,6 +19,13 @@ LEVEL_TEXT = ('Kernel-checked theorems over the complete finite space (forall S 
 LEVEL_NOTE = ('Trusted: Coq kernel + vm_compute (64-case enumeration); no axioms; tools/cfg2coq.py (regex-based translator, cross-checked by the real builds on every run); cargo/rustc; the probe battery samples behaviour, it does not prove bit-identity of all computations - '
               'that rests on C20_core_cfg_free (no cfg can select different code) being a faithful reading of the source.')
 PROBE = os.path.join(VERIF, 'probe20')
+if REPO != '/repo':
+    _alt = os.path.join(WORK, 'probe20_src')
+    os.makedirs(os.path.join(_alt, 'src'), exist_ok=True); os.makedirs(os.path.join(_alt, '.cargo'), exist_ok=True)
+    shutil.copyfile(os.path.join(PROBE, 'src', 'main.rs'), os.path.join(_alt, 'src', 'main.rs'))
+    shutil.copyfile(os.path.join(PROBE, '.cargo', 'config.toml'), os.path.join(_alt, '.cargo', 'config.toml'))
+    open(os.path.join(_alt, 'Cargo.toml'), 'w').write(open(os.path.join(PROBE, 'Cargo.toml')).read().replace('path = "/repo"', 'path = "%s"' % REPO))
+    PROBE = _alt
 
 def subsets():
     out = []
@@ -64,7 +71,7 @@ def run_check(tier, seed, replay=None):
     # 1. translate
     gen = os.path.join(VERIF, 'coq', 'gen', 'FeaturesGen.v')
     tmp = gen + '.new'
-    p = subprocess.run([sys.executable, os.path.join(VERIF, 'tools', 'cfg2coq.py'), '/repo', tmp], capture_output=True, text=True)
+    p = subprocess.run([sys.executable, os.path.join(VERIF, 'tools', 'cfg2coq.py'), REPO, tmp], capture_output=True, text=True)
     tinfo = {}
     if p.returncode != 0:
         print('ERROR: translator failed: ' + p.stderr[-1500:], file=out)
